@@ -509,7 +509,9 @@ class assert_not_is_instance(RuntimeAssertionFeedback):
 
 
 def type_to_pedal_type(expected_type):
-    evaluated_expected_type = evaluate(expected_type) if isinstance(expected_type, str) else expected_type
+    # A type given as text is evaluated in the student's namespace, which hands
+    # back a result proxy; the type itself is what gets normalised
+    evaluated_expected_type = unwrap_value(evaluate(expected_type)) if isinstance(expected_type, str) else expected_type
     expected_pedal_type = normalize_type(evaluated_expected_type, evaluate)
     if not isinstance(expected_pedal_type, Exception):
         expected_pedal_type = expected_pedal_type.as_type()
